@@ -99,6 +99,25 @@ func ens_af_rsv(c *Conn, old_c Conn, ret0 int, ret1 error) bool {
 	return ret0 == op && (op == 0 || op == 1 || op == 2 || op == 9 || op == 10)
 }
 
+// the payload length a frame header declares (7-bit, 16-bit or 64-bit form); -1 if the 64-bit form has its top bit set
+func spec_declaredLen(r io.Reader, h int) int64 {
+	l7 := int64(ghost_rd_at(r, h+1) & 0x7f)
+	if l7 == 126 {
+		return int64(ghost_rd_at(r, h+2))<<8 | int64(ghost_rd_at(r, h+3))
+	}
+	if l7 == 127 {
+		if ghost_rd_at(r, h+2)&0x80 != 0 {
+			return -1
+		}
+		var n int64
+		for i := 0; i < 8; i++ {
+			n = n<<8 | int64(ghost_rd_at(r, h+2+i))
+		}
+		return n
+	}
+	return l7
+}
+
 // control frames are final and carry at most 125 bytes (5.5)
 //@ ensures (*Conn).advanceFrame C14.control
 func ens_af_control(c *Conn, old_c Conn, ret0 int, ret1 error) bool {
@@ -106,7 +125,8 @@ func ens_af_control(c *Conn, old_c Conn, ret0 int, ret1 error) bool {
 		return true
 	}
 	h := spec_hdr(c, old_c)
-	return ghost_rd_at(c.br, h)&0x80 != 0 && ghost_rd_at(c.br, h+1)&0x7f <= 125
+	n := spec_declaredLen(c.br, h)
+	return ghost_rd_at(c.br, h)&0x80 != 0 && n >= 0 && n <= 125
 }
 
 // fragmentation (5.4): a data frame starts a message only when none is in progress, a continuation only when one is;
@@ -142,20 +162,7 @@ func ens_af_length(c *Conn, old_c Conn, ret0 int, ret1 error) bool {
 	if ret1 != nil || !(ret0 == TextMessage || ret0 == BinaryMessage || ret0 == continuationFrame) {
 		return true
 	}
-	r, h := c.br, spec_hdr(c, old_c)
-	l7 := int64(ghost_rd_at(r, h+1) & 0x7f)
-	want := l7
-	if l7 == 126 {
-		want = int64(ghost_rd_at(r, h+2))<<8 | int64(ghost_rd_at(r, h+3))
-	} else if l7 == 127 {
-		if ghost_rd_at(r, h+2)&0x80 != 0 {
-			return false
-		}
-		want = 0
-		for i := 0; i < 8; i++ {
-			want = want<<8 | int64(ghost_rd_at(r, h+2+i))
-		}
-	}
+	want := spec_declaredLen(c.br, spec_hdr(c, old_c))
 	return c.readRemaining == want && c.readRemaining >= 0
 }
 
